@@ -580,7 +580,11 @@ class SelGen:
             # An unterminated quote followed by a long tail sends the tokenizer's regular expressions into
             # catastrophic backtracking (that is property C07's subject and has no simulation seam); keep
             # quotes balanced so that a run can never stall inside the C regex engine.
-            if t.count('"') % 2 or t.count("'") % 2:
+            import re as _re
+            dq = len(_re.findall(r'(?<!\\)"', t))
+            sq = len(_re.findall(r"(?<!\\)'", t))
+            if dq % 2 or sq % 2 or '\\"' in t or "\\'" in t:
+                # (an escaped quote un-terminates a string just as well as a missing one)
                 t = t.replace('"', '').replace("'", '')
             return Sel(t, uses_scope=True, uses_custom=self.custom, special=self.special)
         t = self.ws() + self.sel_list() + self.ws()
